@@ -173,11 +173,12 @@ impl<'tcx> Cx<'tcx> {
                 let (kname, extra) = match &**kind {
                     AggregateKind::Tuple => ("tuple".to_string(), String::new()),
                     AggregateKind::Array(_) => ("array".to_string(), String::new()),
-                    AggregateKind::Adt(did, variant, _, _, _) => {
+                    AggregateKind::Adt(did, variant, _, _, active) => {
                         let adt = self.tcx.adt_def(*did);
                         let v = adt.variant(*variant);
+                        let active_s = match active { Some(fi) => js(v.fields[*fi].name.as_str()), None => "null".to_string() };
                         let fields: Vec<String> = v.fields.iter().map(|f| js(f.name.as_str())).collect();
-                        ("adt".to_string(), format!(",\"adt\":{},\"variant\":{},\"vi\":{},\"discr\":{},\"fields\":[{}]", js(&self.tcx.def_path_str(*did)), js(v.name.as_str()), variant.as_usize(), if adt.is_enum() { js(&format!("{}", adt.discriminant_for_variant(self.tcx, *variant).val)) } else { "null".to_string() }, fields.join(",")))
+                        ("adt".to_string(), format!(",\"adt\":{},\"active\":{},\"variant\":{},\"vi\":{},\"discr\":{},\"fields\":[{}]", js(&self.tcx.def_path_str(*did)), active_s, js(v.name.as_str()), variant.as_usize(), if adt.is_enum() { js(&format!("{}", adt.discriminant_for_variant(self.tcx, *variant).val)) } else { "null".to_string() }, fields.join(",")))
                     }
                     AggregateKind::Closure(did, _) => ("closure".to_string(), format!(",\"def\":{}", js(&self.tcx.def_path_str(*did)))),
                     other => ("other".to_string(), format!(",\"d\":{}", js(&format!("{:?}", other)))),
